@@ -5,6 +5,19 @@ HERE = os.path.dirname(os.path.dirname(os.path.abspath(__file__)))
 props = [json.loads(l) for l in open(os.path.join(HERE, 'properties.jsonl'))]
 
 CHECKS = {
+ 'C01': dict(
+    category='proof',
+    text=('read_laminaprop (3/6/9-entry tuples), Lamina.rebuild, Laminate.rebuild, Laminate.calc_constitutive_matrix and read_stack are '
+          'parsed from /repo and executed symbolically; QL is proved equal to the 4th/2nd-order tensor rotation of the plane-stress '
+          'stiffness (polynomial identities modulo sin^2+cos^2=1), the ply loop of calc_constitutive_matrix is proved by induction on a '
+          'symbolic ply count (base + step against the exact layer integrals of weights 1, z, z^2, from -t/2+offset), the A/B/D/E/ABD/ABDE '
+          'block placement and symmetry are post-conditions, every division gets a z3 non-vanishing obligation under the admissibility '
+          'pre-condition, and the offset / mirror / positive-definiteness consequences are lemmas over those contracts.'),
+    design_ref='DESIGN.md section 4 (C01)',
+    note=('real instead of float arithmetic; numpy array primitives and sin/cos laws assumed (A3, A4); read_stack list construction and the '
+          'code-level lemma re-checks are bounded in the ply count (N<=3, labelled bounded in evidence); final step of the positive-definiteness '
+          'argument (integral of a sum of squares) is not machine-checked; 3 known findings (ZeroDivisionError for singular 3-D ply laws)'),
+    technique='sidecar contracts + symbolic execution of the Python ast; loop invariant by induction; exact normal form + z3'),
  'C10': dict(
     category='proof',
     text=('Every arm of every table function in compmech/lib/src (6 full-interval, 6 sub-interval, 5 mapped-argument integral '
